@@ -41,8 +41,8 @@ const xfKeyF6 = "readfrom-seq/short-last-chunk-write-error-masked"
 
 // xfWant is the outcome the property prescribes.
 type xfWant struct {
-	N      int64  // bytes moved intact (prefix length)
-	EOF    bool   // error must be io.EOF
+	N      int64   // bytes moved intact (prefix length)
+	EOF    bool    // error must be io.EOF
 	Fail   *xfFail // error must be this status
 	FailAt int64
 	SrcErr bool // error must be the source's own error
@@ -668,12 +668,12 @@ func checkC13(c *lib.Ctx) {
 // ---------- model comparison through xfer.readat / xfer.seq ----------
 
 type xfSeqLine struct {
-	line     string
-	calls    string // implementation's per-call text
-	file     string // implementation's "<len>:<hash>" of the served file afterwards ("" = not comparable)
-	maskN    bool   // the count of the last call is schedule-dependent: compare everything but n
-	input    any
-	readat   bool // the model answers one token string that must equal `calls` (xfer.readat, xfer.plan)
+	line   string
+	calls  string // implementation's per-call text
+	file   string // implementation's "<len>:<hash>" of the served file afterwards ("" = not comparable)
+	maskN  bool   // the count of the last call is schedule-dependent: compare everything but n
+	input  any
+	readat bool // the model answers one token string that must equal `calls` (xfer.readat, xfer.plan)
 }
 
 type xfSeqCompare struct {
